@@ -549,6 +549,8 @@ class Agent(dbus.service.Object):
                            item.transfer_id, total_len, mtu)
         if mtu is None or total_len < (mtu - 4):
             # no segmentation
+            if total_len >= 2 ** 20:
+                raise ValueError('Transfer {} of {} octets does not fit the 20-bit message length'.format(item.transfer_id, total_len))
             msg = MessageHead()/BundlePdu(data)
             yield msg
         else:
